@@ -80,6 +80,17 @@ type M6 struct {
 	UpdatedAt time.Time
 }
 
+// M7: composite primary key, one member named ID (so Schema.PrioritizedPrimaryField is set); the four
+// stored rows share key members pairwise: (1,en) (1,fr) (2,en) (2,fr)
+type M7 struct {
+	ID        uint   `gorm:"primaryKey;autoIncrement:false"`
+	Locale    string `gorm:"primaryKey"`
+	Title     string
+	Views     int64
+	UpdatedAt time.Time
+}
+
+func (M7) TableName() string { return "t7" }
 func (M1) TableName() string { return "t1" }
 func (M2) TableName() string { return "t2" }
 func (M3) TableName() string { return "t3" }
@@ -143,6 +154,35 @@ var types = []TDesc{
 		{Name: "Age", Col: "years", ColTag: true, Kind: "int", RW: "update"}, {Name: "Nick", Col: "nick", ColTag: true, Kind: "str", RW: "create"},
 		{Name: "Zip", Col: "zip", Kind: "str", RW: "create,update"},
 		{Name: "UpdatedAt", Col: "updated_at", Kind: "time", Auto: "update"}}},
+	{Table: "t7", Type: reflect.TypeOf(M7{}), Fields: []FDesc{
+		{Name: "ID", Col: "id", Kind: "int", PK: true}, {Name: "Locale", Col: "locale", Kind: "str", PK: true},
+		{Name: "Title", Col: "title", Kind: "str"}, {Name: "Views", Col: "views", Kind: "int"},
+		{Name: "UpdatedAt", Col: "updated_at", Kind: "time", Auto: "update"}}},
+}
+
+var locales = []string{"", "en", "fr"} // key member code 0 = zero value
+
+func isComposite(t TDesc) bool {
+	n := 0
+	for _, f := range t.Fields {
+		if f.PK {
+			n++
+		}
+	}
+	return n > 1
+}
+
+// keyOf: the primary-key member values of stored row [rid] (single key: the row id itself;
+// composite: (1,en) (1,fr) (2,en) (2,fr)), as Go values and as Z codes
+func keyOf(t TDesc, f FDesc, rid int64) (interface{}, int64) {
+	if !isComposite(t) {
+		return rid, rid
+	}
+	if f.Kind == "str" {
+		c := int64(2 - rid%2) // rid 1,3 -> en ; 2,4 -> fr
+		return locales[c], c
+	}
+	return (rid + 1) / 2, (rid + 1) / 2
 }
 
 // ---- generated model types (random per-field permission tags) ----------------------------------
@@ -307,7 +347,8 @@ type Input struct {
 	Omits    []SItem `json:"omits"`
 	Rows     []Row   `json:"rows"`     // struct payload(s); map payload = Rows[0].PV with spellings
 	ModelKey int64   `json:"model_key"` // Model(&T{ID: k}), 0 = Model(&T{})
-	WhereIDs []int64 `json:"where_ids"` // Where("id IN ?", ids); nil = no Where
+	ModelLoc int64   `json:"model_loc"` // composite key: Model(&T{ID: k, Locale: locales[ModelLoc]})
+	WhereIDs []int64 `json:"where_ids"` // Where("rid IN ?", rows); nil = no Where
 	HasWhere bool    `json:"has_where"`
 	Cols     []int   `json:"cols"`  // upsert_cols: DoUpdates columns (field indexes)
 	Batch    int     `json:"batch"` // create_batch: CreateInBatches size (0 = Create(&slice))
@@ -420,9 +461,12 @@ func (e *env) createTable(t TDesc) {
 	}
 	created[t.Table] = true
 	{
-		var cols []string
+		var cols, pks []string
 		for _, f := range t.Fields {
 			switch {
+			case f.PK && isComposite(t):
+				pks = append(pks, f.Col)
+				cols = append(cols, f.Col+map[string]string{"str": " text"}[f.Kind]+map[string]string{"int": " integer"}[f.Kind])
 			case f.PK:
 				cols = append(cols, f.Col+" integer PRIMARY KEY")
 			case f.Kind == "str":
@@ -434,6 +478,9 @@ func (e *env) createTable(t TDesc) {
 			}
 		}
 		cols = append(cols, "rid integer") // stable row identity for the diff (not a field of the model type)
+		if len(pks) > 0 {
+			cols = append(cols, "PRIMARY KEY ("+strings.Join(pks, ",")+")")
+		}
 		_, err := e.sql.Exec("CREATE TABLE " + t.Table + " (" + strings.Join(cols, ", ") + ")")
 		lib.Must(err)
 	}
@@ -450,7 +497,8 @@ func (e *env) restore(t TDesc) error {
 			cols = append(cols, f.Col)
 			qs = append(qs, "?")
 			if f.PK {
-				args = append(args, id)
+				v, _ := keyOf(t, f, id)
+				args = append(args, v)
 			} else {
 				args = append(args, storedValue(f, j, id))
 			}
@@ -583,12 +631,15 @@ func run(e *env, in Input) Obs {
 	}
 	model := reflect.New(t.Type)
 	model.Elem().FieldByName("ID").SetUint(uint64(in.ModelKey))
+	if isComposite(t) {
+		model.Elem().FieldByName("Locale").SetString(locales[in.ModelLoc])
+	}
 	isUpdate := strings.HasPrefix(in.Kind, "update")
 	if isUpdate || in.Kind == "create_map" {
 		tx = tx.Model(model.Interface())
 	}
 	if in.HasWhere {
-		tx = tx.Where("id IN ?", in.WhereIDs)
+		tx = tx.Where("rid IN ?", in.WhereIDs) // rid = identity of the stored row (= its key for single-key types)
 	}
 	if len(in.Selects) > 0 {
 		var rest []interface{}
@@ -843,7 +894,21 @@ func term(in Input, o Obs) string {
 		lib.ListOf(in.Selects, func(s SItem) string { return gItem(t, s) }),
 		lib.ListOf(in.Omits, func(s SItem) string { return gItem(t, s) }),
 		lib.ListOf(in.Rows, func(r Row) string { return gRow(t, r, asMap) }),
-		lib.ZList(stored), lib.Z(in.ModelKey), where,
+		lib.ListOf(stored, func(rid int64) string {
+			var ks []int64
+			for _, f := range t.Fields {
+				if f.PK {
+					_, c := keyOf(t, f, rid)
+					ks = append(ks, c)
+				}
+			}
+			return lib.Pair(lib.Z(rid), lib.ZList(ks))
+		}), func() string {
+			if isComposite(t) {
+				return lib.ZList([]int64{in.ModelKey, in.ModelLoc})
+			}
+			return lib.ZList([]int64{in.ModelKey})
+		}(), where,
 		lib.ListOf(o.Cells, gCell), lib.Bool(o.Err != ""), lib.ListOf(o.Parsed, gPF), lib.Bool(o.Setup != ""))
 }
 
@@ -943,21 +1008,28 @@ func mapRow(r *lib.Rng, t TDesc, id int64, n int, edge bool) Row {
 	return row
 }
 
+var out_stale bool // the last generated input is a stale-copy struct update under a narrowing Select
+
 func genInput(r *lib.Rng, edge bool, dyn *Input) Input {
+	out_stale = false
 	in := Input{Type: r.Intn(len(types)), Kind: lib.Pick(r, kinds)}
 	if dyn != nil {
 		in.Dyn, in.DynTable = dyn.Dyn, dyn.DynTable
 	}
 	t := typeOf(in)
+	comp := isComposite(t)
+	if comp { // composite key: updates only, Select/Omit over non-key fields without '*'
+		in.Kind = lib.Pick(r, []string{"update", "updates_struct", "updates_map", "update_column", "update_columns_struct", "update_columns_map"})
+	}
 	// Select / Omit
 	switch r.Intn(10) {
 	case 0, 1, 2, 3: // none
 	case 4, 5:
-		in.Selects = genItems(r, t, r.Range(1, 3), true, edge)
+		in.Selects = genItems(r, t, r.Range(1, 3), !comp, edge)
 	case 6, 7:
 		in.Omits = genItems(r, t, r.Range(1, 2), false, edge)
 	default:
-		in.Selects = genItems(r, t, r.Range(1, 3), true, edge)
+		in.Selects = genItems(r, t, r.Range(1, 3), !comp, edge)
 		in.Omits = genItems(r, t, 1, false, edge)
 	}
 	freshID := func() int64 {
@@ -1033,6 +1105,35 @@ func genInput(r *lib.Rng, edge bool, dyn *Input) Input {
 		default:
 			in.Rows = []Row{structRow(r, t, 0, 1, 2, edge)}
 			in.Ptr = r.Chance(1, 3)
+			// a stale loaded copy: the struct carries NON-ZERO tracked time fields (2 of 5 struct
+			// updates), half of them under a narrowing Select that names data fields only
+			if r.Chance(2, 5) {
+				hasAuto := false
+				for i := range in.Rows[0].PV {
+					if t.Fields[in.Rows[0].PV[i].Field].Auto != "" {
+						in.Rows[0].PV[i].Zero = false
+						hasAuto = true
+					}
+				}
+				if hasAuto && r.Bool() {
+					var data []int
+					for _, j := range nonKey(t) {
+						if t.Fields[j].Auto == "" {
+							data = append(data, j)
+						}
+					}
+					if len(data) > 0 {
+						in.Selects = nil
+						for i, n := 0, r.Range(1, 2); i < n; i++ {
+							in.Selects = append(in.Selects, SItem{lib.Pick(r, []string{"field", "col"}), lib.Pick(r, data)})
+						}
+						if r.Chance(2, 3) {
+							in.Omits = nil
+						}
+						out_stale = true
+					}
+				}
+			}
 		}
 		// target rows: a strict subset through the model key and/or a Where
 		switch r.Intn(3) {
@@ -1046,6 +1147,17 @@ func genInput(r *lib.Rng, edge bool, dyn *Input) Input {
 		}
 		if edge && r.Chance(1, 4) {
 			in.ModelKey = 9 // no such row
+		}
+		if comp {
+			// the model value carries the whole key (one row), or only one member (two rows share it)
+			in.ModelKey, in.ModelLoc = int64(1+r.Intn(2)), int64(1+r.Intn(2))
+			switch r.Intn(5) {
+			case 0:
+				in.ModelLoc = 0
+			case 1:
+				in.ModelKey = 0
+			}
+			in.HasWhere = r.Chance(1, 3)
 		}
 		if in.HasWhere {
 			for _, id := range stored {
@@ -1089,7 +1201,7 @@ func shape(in Input) string {
 			fmt.Fprintf(&sb, "%d%s%s,", pv.Field, z, pv.Spell)
 		}
 	}
-	fmt.Fprintf(&sb, "|k%d|w%v%d|c%v", in.ModelKey, in.HasWhere, len(in.WhereIDs), in.Cols)
+	fmt.Fprintf(&sb, "|k%d.%d|w%v%d|c%v", in.ModelKey, in.ModelLoc, in.HasWhere, len(in.WhereIDs), in.Cols)
 	return sb.String()
 }
 
@@ -1147,6 +1259,9 @@ func main() {
 			}
 		} else {
 			out.Count("model_type", fmt.Sprintf("M%d", in.Type+1))
+			if isComposite(typeOf(in)) {
+				out.Count("composite_model_key", fmt.Sprintf("id=%v locale=%v where=%v", in.ModelKey != 0, in.ModelLoc != 0, in.HasWhere))
+			}
 		}
 		out.Count("selects", fmt.Sprint(len(in.Selects)))
 		out.Count("omits", fmt.Sprint(len(in.Omits)))
@@ -1214,8 +1329,11 @@ func main() {
 		if trackedKeyUnselected(in) {
 			kind = "tracked-key-unselected"
 		}
+		if out_stale {
+			kind = "stale-copy-narrow-select"
+		}
 		add(kind, in)
 	}
-	out.Extra["rule"] = "a case = one write finisher (Create, Create(&slice)/CreateInBatches, Create from map, upsert UpdateAll / DoUpdates(cols) / DoNothing, Save, Update, Updates struct|map, UpdateColumn, UpdateColumns struct|map) on one of six fixed hand-written model types or (half of the cases) on a GENERATED model type built with reflect.StructOf: key + 3-6 string/int fields, each with an independent random choice of '-' / '-:all' / '-:migration', '->' / '->:false' and '<-' / '<-:create' / '<-:update' / '<-:false' / '<-:create,update', default or custom column, optional CreatedAt / UpdatedAt / Touched tracked fields as time.Time, unix seconds or milliseconds with random permissions. The fixed types (together they carry every permission tag <-:create <-:update <-:false <- -> ->:false ->;<-:create - -:migration -:all <-:create,update, custom column names, and auto-time fields as time.Time / unix seconds / milliseconds with and without write permission)) x random Select/Omit lists (0-3 items: '*', 'tbl.*', struct-field spelling, column spelling, 'tbl.col', unknown name) x payload with zero and non-zero entries (struct: every field; map: 1-4 keys in column or field spelling) x model key and/or Where(id IN subset) selecting a strict subset of the 4 stored rows. Observed: the cell-by-cell diff of the table (raw SELECT) with each changed cell classified now / payload value / other, and gorm's parsed permission flags. Domain: map keys name existing columns and (for updates) never the primary key; DoUpdates(cols) runs without Select/Omit; the struct payload is of the model type with a zero key; updates always carry a model key or a Where; explicit DoUpdates lists name only columns with create and update permission. distinct = distinct (type, finisher, select, omit, payload zero pattern and spelling, targeting); non-trivial = some cell changed and (a Select/Omit is present or the type carries permission tags)."
+	out.Extra["rule"] = "a case = one write finisher (Create, Create(&slice)/CreateInBatches, Create from map, upsert UpdateAll / DoUpdates(cols) / DoNothing, Save, Update, Updates struct|map, UpdateColumn, UpdateColumns struct|map) on one of six fixed hand-written model types or (half of the cases) on a GENERATED model type built with reflect.StructOf: key + 3-6 string/int fields, each with an independent random choice of '-' / '-:all' / '-:migration', '->' / '->:false' and '<-' / '<-:create' / '<-:update' / '<-:false' / '<-:create,update', default or custom column, optional CreatedAt / UpdatedAt / Touched tracked fields as time.Time, unix seconds or milliseconds with random permissions. The fixed types (together they carry every permission tag <-:create <-:update <-:false <- -> ->:false ->;<-:create - -:migration -:all <-:create,update, custom column names, and auto-time fields as time.Time / unix seconds / milliseconds with and without write permission)) x random Select/Omit lists (0-3 items: '*', 'tbl.*', struct-field spelling, column spelling, 'tbl.col', unknown name) x payload with zero and non-zero entries (struct: every field; map: 1-4 keys in column or field spelling) x model key and/or Where(row IN subset) selecting a strict subset of the 4 stored rows; the seventh fixed type M7 has a COMPOSITE primary key (ID, Locale) whose stored rows share members pairwise, updated through model values carrying the whole key or one member. Observed: the cell-by-cell diff of the table (raw SELECT) with each changed cell classified now / payload value / other, and gorm's parsed permission flags. Domain: map keys name existing columns and (for updates) never the primary key; DoUpdates(cols) runs without Select/Omit; the struct payload is of the model type with a zero key; updates always carry a model key or a Where; explicit DoUpdates lists name only columns with create and update permission. distinct = distinct (type, finisher, select, omit, payload zero pattern and spelling, targeting); non-trivial = some cell changed and (a Select/Omit is present or the type carries permission tags)."
 	lib.Must(out.Flush())
 }
